@@ -90,18 +90,18 @@ CLAIMED = {
         note=TRUST + LOOP + "; defects D3/D9 repaired by fix commits f08e646, c4e5f5a; D10, D11 recorded; a listener is registered under one filter",
     ),
     "C06": dict(
-        category="other",
-        text="Subscribe / StopSubscribe handling, TTL expiry, subscriber reboot and service stop are proved, from an arbitrary consistent state and for either listener decision, to keep the server-side records truthful and alternating: an accepted Subscribe is recorded with deadline now + TTL and positively acknowledged, a rejected one is neither recorded nor later reported, and a reboot revealed by a message is applied before that message's Subscribe entries. The subscription store is unbounded (lazily materialised); one instance per announcer and 0..2 endpoint options per entry are shape bounds, hence level other.",
+        category="proof",
+        text="Subscribe / StopSubscribe handling, TTL expiry, subscriber reboot and service stop are proved, from an arbitrary consistent state and for either listener decision, to keep the server-side records truthful and alternating: an accepted Subscribe is recorded with deadline now + TTL and positively acknowledged, a rejected one is neither recorded nor later reported, and a reboot revealed by a message is applied before that message's Subscribe entries. The subscription store is unbounded (lazily materialised; its mass-release loops by loop contract), a Subscribe entry carries arbitrarily many options (from_subscribe_entry verified element-wise by a loop contract and used by contract: the endpoint set is part of the identity, whatever the number of options), one to three instances per announcer as in the property's quantifier.",
         design_ref="DESIGN.md 4/C06, 5/D4",
-        technique="monitor invariant preserved by each operation: symbolic execution of the real AST over the shared event-loop model + SMT; bounded state shape",
+        technique="monitor invariant preserved by each operation + operation frames: symbolic execution of the real AST over the shared event-loop model + SMT; loop contracts for the store walks and the option loop",
         note=TRUST + LOOP + "; defect D4 repaired by fix commit c4e5f5a",
     ),
     "C11": dict(
-        category="other",
-        text="For every Subscribe entry (all ids, counters, TTLs, 0..2 endpoint options), instance state, listener decision and prior state: exactly one SubscribeAck is queued, for the sender only, echoing service, instance, major version, eventgroup id and counter, with the requested TTL iff a running matching instance accepted and TTL 0 otherwise; StopSubscribe of a known eventgroup is unanswered; multicast Subscribes are dropped by the dispatcher. Number of instances/options bounded in shape, hence level other.",
+        category="proof",
+        text="For every Subscribe entry (all ids, counters, TTLs, arbitrarily many endpoint and other options), one to three instances (at most one matching: the statement's premise), instance state, listener decision and prior state: exactly one SubscribeAck is queued, for the sender only, echoing service, instance, major version, eventgroup id and counter, with the requested TTL iff a running matching instance accepted and TTL 0 otherwise; StopSubscribe of a known eventgroup is unanswered; multicast Subscribes are dropped by the dispatcher; the queued answer reaches the wire exactly once, to its destination only (the send-queue contract, also C15).",
         design_ref="DESIGN.md 4/C11",
-        technique="postconditions by symbolic execution of the real AST + SMT; bounded state shape",
-        note=TRUST + "; transmission of the queued answer is C15",
+        technique="postconditions and frames by symbolic execution of the real AST + SMT; from_subscribe_entry by loop contract / callee contract",
+        note=TRUST + LOOP,
     ),
     "C12": dict(
         category="proof",
